@@ -594,6 +594,40 @@ func runC20(c *Ctx) {
 		}
 		c.check(len(helpers) >= 6, "Z1", "decoding helpers used by the client", "?", fmt.Sprintf("%d helpers", len(helpers)), fmt.Sprintf("only %d decoding helpers reachable from the client", len(helpers)))
 	}
+	// Z17: what a reply's attributes decode to (a FileStat, the os.FileInfo made from it) is handed to the caller, and
+	// the library itself calls Mode()/IsDir() on it (MkdirAll, Remove, RemoveAll, Walk): every index, slice and
+	// assertion in the methods of fileInfo and FileStat and what they call holds for every value of the fields
+	{
+		var roots []*ssa.Function
+		for _, fn := range p.LibFuncs() {
+			if outermost(fn) != fn || fn.Package() != p.Sftp || fn.Signature.Recv() == nil {
+				continue
+			}
+			switch typeName(fn.Signature.Recv().Type()) {
+			case "fileInfo", "FileStat":
+				roots = append(roots, fn)
+			}
+		}
+		nZ := 0
+		for fn := range p.cone(roots...) {
+			if !inModule(fn) || outermost(fn).Package() != p.Sftp || len(fn.Blocks) == 0 {
+				continue
+			}
+			c.looked(fnName(fn))
+			z := w.get(fn)
+			for _, o := range z.obligationsOf() {
+				switch o.Kind {
+				case "index", "slice", "assert", "div":
+				default:
+					continue
+				}
+				nZ++
+				decideObl(c, w, z, o, "Z17", oblKey(o, fn, ord), lifted)
+			}
+		}
+		c.okT("Z17", "accessors of decoded attributes examined", "?", fmt.Sprintf("%d functions at the roots, %d obligations", len(roots), nZ))
+		c.check(len(roots) >= 6, "Z17", "methods of fileInfo and FileStat", "?", fmt.Sprintf("%d", len(roots)), "the accessor methods of decoded attributes were not found")
+	}
 	c.note("client functions: %d, reply-touching obligations: %d", nFn, nObl)
 	c.check(nObl >= 12, "Z1", "reply decoding sites", "?", fmt.Sprintf("%d obligations on reply data", nObl), fmt.Sprintf("only %d obligations found on reply data: the taint sources were lost", nObl))
 
@@ -778,6 +812,7 @@ func runC20(c *Ctx) {
 	// Z15 (= C04.R4): a failed send is delivered through the in-flight table, so that a reply of absurd length (which
 	// ends the session) cannot leave the caller waiting on a channel nobody writes to
 	c.withOnly("R4", "Z15", func() { runC04(c) })
+	checkCommaOkPointerUsedUnderOk(c, "Z16", isClientSide, 3)
 }
 
 // clientAxioms adds: data returned by clientConn.sendPacket with a nil error, and result.data of a
